@@ -1,4 +1,5 @@
 import Marwood.Lemmas.CompileCorrect3EnterAll
+import Marwood.Lemmas.CompileCorrect3RecBlock
 /-!
 # T01.3 stage 3 — operand lists, bodies, and the call of a closure: `ENTER`, the body, `RET`
 -/
@@ -71,8 +72,9 @@ theorem args3_ok (L : Laws3 D) {n : Nat} (ih : ExprOK3 D n) :
 
 /-! ## bodies: leading definitions, then expressions -/
 
-theorem body3_ok (L : Laws3 D) {n : Nat} (ih : ExprOK3 D n) (iht : ExprOKT3 D n) :
-    ∀ (body : List Datum) f cst c base bodyD cst' code (ρ : Env) (us : Text → Prop) (ints : List Text) (d : Bool),
+theorem body3_okN (L : Laws3 D) {n : Nat} (ih : ExprOK3 D n) (iht : ExprOKT3 D n) :
+    ∀ (N : Nat) (body : List Datum), body.length ≤ N →
+    ∀ f cst c base bodyD cst' code (ρ : Env) (us : Text → Prop) (ints : List Text) (d : Bool),
     F3B D.setG f c (bound ρ) us ints bodyD → CtxOK c →
     compileBody f cst c base bodyD = .ok (cst', code) → cst'.lambdas <+: D.final →
     properList bodyD = some body → (ints ≠ [] → d = true) →
@@ -80,13 +82,19 @@ theorem body3_ok (L : Laws3 D) {n : Nat} (ih : ExprOK3 D n) (iht : ExprOKT3 D n)
     ∀ (W : World) (s : MSt H) (fr : Frame), CodeAt2 D c.envmap s.heap σ.store s.ipL base code → s.ipO = base →
       Inv3 D W s.heap σ → EnvRep3 ops W s.heap c s.ep ρ us → SWF s.stack → FrameAt s.stack s.bp fr →
     ∃ W' s', W.le W' ∧ Out3 D W' s code.length σ σ' w true fr s' := by
-  intro body
-  induction body with
-  | nil =>
-    intro f cst c base bodyD cst' code ρ us ints d hfb hcx hcomp hpre hpl
-    exact absurd rfl (F3B_nonempty hfb hpl)
-  | cons e0 es ihes =>
-    intro f cst c base bodyD cst' code ρ us ints d hfb hcx hcomp hpre hpl hd σ w σ' hev W s fr hc hip hi her hw hfr
+  intro N
+  induction N with
+  | zero =>
+    intro body hN f cst c base bodyD cst' code ρ us ints d hfb hcx hcomp hpre hpl
+    have : body = [] := List.length_eq_zero_iff.mp (by omega)
+    exact absurd this (F3B_nonempty hfb hpl)
+  | succ N ihN =>
+    intro body hN f cst c base bodyD cst' code ρ us ints d hfb hcx hcomp hpre hpl hd σ w σ' hev W s fr hc hip hi her hw hfr
+    cases body with
+    | nil => exact absurd rfl (F3B_nonempty hfb hpl)
+    | cons e0 es =>
+    have hes : es.length ≤ N := by simpa using hN
+    have ihes := ihN es hes
     cases hfb with
     | last x hd0 hfx =>
       obtain ⟨es', hpl', hes⟩ := properList_pair_inv hpl
@@ -174,6 +182,33 @@ theorem body3_ok (L : Laws3 D) {n : Nat} (ih : ExprOK3 D n) (iht : ExprOKT3 D n)
             simp only [List.length_append, List.length_cons, List.length_nil]
           rw [e] at this; exact this)⟩
       · exact ⟨W2, s3, World.le_trans hw1 hw2, .inr ⟨ht, Ret3.prepend r12.steps r12.ext q3⟩⟩
+
+    | block Bs ints0 bodyD0 hne hK =>
+      have hdt : d = true := hd (F3K_ints_ne hne hK)
+      subst hdt
+      subst hip
+      obtain ⟨s1, σ1, f1, cst1, restD, rest, code1, code2, ints1, r1, her1, rfl, c2, hfb2, hpl2, hlen, hev2⟩ :=
+        block3_ok L hne hK hcx hcomp hpre hpl hev hc rfl hi her hw
+      have hc2 : CodeAt2 D c.envmap s1.heap σ1.store s1.ipL (s.ipO + code1.length) code2 := r1.codeAfter hc.right
+      have hfr1 : FrameAt s1.stack s1.bp fr := by rw [r1.bp]; exact hfr.of_liveEq r1.stack
+      obtain ⟨W2, s2, hw2, o2⟩ := ihN rest (by simp only [List.length_cons] at hN hlen; omega) _ _ _ _ _ _ _ ρ _ ints1 true
+        hfb2 hcx c2 hpre hpl2 (fun _ => rfl) σ1 w σ' hev2 W s1 fr hc2 r1.ipO r1.inv her1 r1.swf hfr1
+      rcases o2 with r2 | ⟨ht, q2⟩
+      · exact ⟨W2, s2, hw2, .inl (by
+          have := r1.append r2
+          simpa using this)⟩
+      · exact ⟨W2, s2, hw2, .inr ⟨ht, Ret3.prepend r1.steps r1.ext q2⟩⟩
+
+theorem body3_ok (L : Laws3 D) {n : Nat} (ih : ExprOK3 D n) (iht : ExprOKT3 D n) :
+    ∀ (body : List Datum) f cst c base bodyD cst' code (ρ : Env) (us : Text → Prop) (ints : List Text) (d : Bool),
+    F3B D.setG f c (bound ρ) us ints bodyD → CtxOK c →
+    compileBody f cst c base bodyD = .ok (cst', code) → cst'.lambdas <+: D.final →
+    properList bodyD = some body → (ints ≠ [] → d = true) →
+    ∀ (σ : SSt) w (σ' : SSt), Spec.Eval.evalBodyForms (evalN n) ρ d body σ = .ok w σ' →
+    ∀ (W : World) (s : MSt H) (fr : Frame), CodeAt2 D c.envmap s.heap σ.store s.ipL base code → s.ipO = base →
+      Inv3 D W s.heap σ → EnvRep3 ops W s.heap c s.ep ρ us → SWF s.stack → FrameAt s.stack s.bp fr →
+    ∃ W' s', W.le W' ∧ Out3 D W' s code.length σ σ' w true fr s' :=
+  fun body => body3_okN L ih iht body.length body (Nat.le_refl _)
 
 /-! ## the call of a closure: `[VARARG;] ENTER`, the body, `RET` -/
 
